@@ -408,7 +408,7 @@ where
         };
         generated += 1;
         let v = tree.current();
-        match check(&v, true) {
+        match guarded(&mut check, &v, true) {
             Verdict::Pass => {}
             Verdict::Fail(sig, detail) => {
                 if tolerated.iter().any(|t| *t == sig) {
@@ -430,7 +430,7 @@ where
                     loop {
                         iters += 1;
                         let cur = tree.current();
-                        match check(&cur, false) {
+                        match guarded(&mut check, &cur, false) {
                             Verdict::Fail(s2, d2) if s2 == sig => {
                                 best = (cur, s2, d2);
                                 break;
@@ -461,24 +461,35 @@ where
     }
 }
 
-/// Same as `search`, run on `parts` independent sub-seeds in parallel.
-pub fn par_search<S, F>(
+/// Calls the check; a panic escaping from the code under test is a failure of its own kind.
+pub fn guarded<V, F: FnMut(&V, bool) -> Verdict>(check: &mut F, v: &V, first: bool) -> Verdict {
+    match catch(|| check(v, first)) {
+        Ok(v) => v,
+        Err(p) => Verdict::Fail(panic_signature(&p), format!("panic: {}", p)),
+    }
+}
+
+/// Same as `search`, run on `parts` independent sub-seeds in parallel.  The strategy is built
+/// inside each worker (boxed strategies are not `Sync`).
+pub fn par_search<S, M, F>(
     threads: usize,
     parts: usize,
     seed: u64,
     cases_total: u64,
-    strat: &S,
+    make: M,
     tolerated: &[String],
     check: F,
 ) -> Vec<SearchResult<S::Value>>
 where
-    S: Strategy + Sync,
+    S: Strategy,
+    M: Fn() -> S + Sync,
     S::Value: Clone + Send,
     F: Fn(&S::Value, bool, usize) -> Verdict + Sync,
 {
     let per = ((cases_total + parts as u64 - 1) / parts as u64) as u32;
     par_chunks(threads, parts, |i| {
-        search(mix(seed ^ ((i as u64) << 32) ^ 0xA5A5), per, strat, tolerated, |v, first| check(v, first, i))
+        let strat = make();
+        search(mix(seed ^ ((i as u64) << 32) ^ 0xA5A5), per, &strat, tolerated, |v, first| check(v, first, i))
     })
 }
 
